@@ -204,8 +204,8 @@ func buildBand(name string) *BandRules {
 		loraRange(r.DataRates, 0, 8, 12, 812, true, true) // DR0-7 = SF12-5 / 812 kHz
 	case "US915":
 		r = &BandRules{
-			Name:   name,
-			Uplink: append(series(902300000, 200000, 64, 0, 3), series(903000000, 1600000, 8, 4, 6)...), // 500 kHz channels: DR4, LR-FHSS DR5-6 (RP002-1.0.2+)
+			Name:         name,
+			Uplink:       append(series(902300000, 200000, 64, 0, 3), series(903000000, 1600000, 8, 4, 6)...), // 500 kHz channels: DR4, LR-FHSS DR5-6 (RP002-1.0.2+)
 			Downlink:     series(923300000, 600000, 8, 8, 13),
 			RX2Frequency: 923300000, RX2DataRate: 8,
 			RX1ChannelMod: 8,
@@ -222,8 +222,8 @@ func buildBand(name string) *BandRules {
 		loraRange(r.DataRates, 8, 6, 12, 500, false, true) // DR8-13 = SF12-7 / 500, downlink
 	case "AU915":
 		r = &BandRules{
-			Name:   name,
-			Uplink: append(series(915200000, 200000, 64, 0, 5), series(915900000, 1600000, 8, 6, 7)...), // 500 kHz channels: DR6, LR-FHSS DR7
+			Name:         name,
+			Uplink:       append(series(915200000, 200000, 64, 0, 5), series(915900000, 1600000, 8, 6, 7)...), // 500 kHz channels: DR6, LR-FHSS DR7
 			Downlink:     series(923300000, 600000, 8, 8, 13),
 			RX2Frequency: 923300000, RX2DataRate: 8,
 			RX1ChannelMod: 8,
